@@ -205,6 +205,22 @@ func randomVars(t *tape.Tape, names []string) map[string]interface{} {
 	}
 	out := map[string]interface{}{}
 	for _, n := range names {
+		if n == "f" && t.Bool(1, 2) {
+			// Filter-shaped: every field of the input type with a value of any shape
+			// (reflection roots register a Go struct for Filter: Input.CoerceIn then
+			// builds it field by field through reflect)
+			f := map[string]interface{}{}
+			for _, k := range []string{"minAge", "names", "size", "tag", "limit"} {
+				if t.Bool(1, 2) {
+					f[k] = val(1)
+				}
+			}
+			if t.Bool(1, 3) {
+				f["names"] = []interface{}{val(2), val(2), val(2)}
+			}
+			out[n] = f
+			continue
+		}
 		if t.Bool(3, 4) {
 			out[n] = val(0)
 		}
@@ -232,6 +248,14 @@ var c03Adversarial = []string{
 	"query($v: Int!) { echo(s: \"a\", n: $v) }",
 	"query($v: [Int]) { echo(s: \"a\", n: $v) }",
 	"query($f: Filter) { find(filter: $f) { name } }",
+	"query($f: Filter!) { find(filter: $f) { name } }",
+	"query($f: Filter = {names: [null, \"a\"], minAge: null}) { find(filter: $f) { name } }",
+	"query($f: [Filter]) { find(filter: $f) { name } }",
+	"query($x: [String]) { find(filter: {names: $x}) { name } }",
+	"query($x: Int) { find(filter: {minAge: $x, limit: $x, tag: $x}) { name } }",
+	"{ find(filter: {names: [null, \"a\", null], limit: null}) { name } }",
+	"{ find(filter: null) { name } }",
+	"{ find { name } }",
 	"{ find(filter: {minAge: {a: 1}}) { name } }",
 	"{ find(filter: [1, 2]) { name } }",
 	"{ find(filter: {names: {x: [[[1]]]}}) { name } }",
@@ -541,8 +565,11 @@ func (c C03) Run(t *tape.Tape, opt core.RunOpt) (res core.Result) {
 			}
 		}
 	case 6: // sampled input half: adversarial requests, no faults
-		strat := []workload.Strategy{workload.StratReflect, workload.StratInterface, workload.StratAny}[t.Draw(3)]
+		strat := []workload.Strategy{workload.StratReflect, workload.StratInterface, workload.StratAny, workload.StratMixed}[t.Draw(4)]
 		q := workload.GenZoo(t)
+		if strat == workload.StratMixed {
+			workload.DrawMixed(t, q)
+		}
 		z, err := workload.NewZoo(q, strat)
 		if err != nil {
 			res.Fatal = err.Error()
